@@ -179,7 +179,21 @@ def install_gmp(w):
         k = key(p)
         if k not in mpz: raise Violation('uninit-read', 'use of uninitialised mpz_t')
         return mpz[k]
-    def setz(p, v): mpz[key(p)] = v; w.mpz_objs = getattr(w, 'mpz_objs', {}); w.mpz_objs[key(p)] = p.obj
+    HDR_L = 4
+    def header(v):
+        """first 8 bytes of the __mpz_struct: {int _mp_alloc; int _mp_size}; _mp_size = ±(number of limbs) is what the mpz_sgn / mpz_size macros read.
+           For a symbolic integer the limb count is exact up to HDR_L limbs and HDR_L+1 beyond (code that reads it is then cut off by nlimbs' bound)"""
+        if is_c(v):
+            n = (abs(v).bit_length() + 63) // 64; sz = (-n if v < 0 else n) & mask(32); return ((max(n, 1)) & mask(32)) | (sz << 32)
+        from . import bv2int
+        ax = z3.If(v >= 0, v, -v); n = z3.IntVal(HDR_L + 1)
+        for k in range(HDR_L, -1, -1): n = z3.If(ax < (1 << (64 * k)), z3.IntVal(k), n)
+        return z3.Concat(bv2int.BVOfInt(z3.If(v < 0, -n, n), 32), z3.BitVecVal(HDR_L + 1, 32))
+    def setz(p, v):
+        mpz[key(p)] = v; w.mpz_objs = getattr(w, 'mpz_objs', {}); w.mpz_objs[key(p)] = p.obj
+        try:
+            if is_c(p.off) and p.obj.size is not None and p.off + 8 <= p.obj.size and p.off % 8 == 0: p.obj.cells[p.off // 8] = header(v)
+        except Exception: pass
     w.mpz_get = mz; w.mpz_set = setz
     from . import bv2int
     def b2i(x, signed=False, wd=64):
@@ -244,6 +258,35 @@ def install_gmp(w):
         w.events.append(('get_si', x))
         return i2b(x, 64)
     H['@__gmpz_get_si'] = get_si
+    # limb-level access (mpz_size / mpz_getlimbn / mpz_fdiv_ui): a symbolic integer is analysed up to MAXL limbs; larger magnitudes are cut off by a
+    # recorded path assumption (|z| < 2^(64·MAXL)), which becomes part of the stated bound of the obligation
+    MAXL = 4
+    def nlimbs(it, x):
+        if conc(x): return (abs(x).bit_length() + 63) // 64
+        ax = zabs(x)
+        it.pc.append(ax < (1 << (64 * MAXL))); w.events.append(('bound', 'mpz magnitude below 2^%d (limb-wise code analysed up to %d limbs)' % (64 * MAXL, MAXL)))
+        cnt = MAXL
+        for n in range(MAXL):
+            if it.branch(ax < (1 << (64 * n))): cnt = n; break
+        # name the limbs: |x| = Σ L_i·2^(64 i) with 0 <= L_i < 2^64 (a definitional extension: the decomposition exists and is unique)
+        w.limb_seq = getattr(w, 'limb_seq', 0) + 1
+        Ls = [z3.Int('mpzlimb_%d_%d' % (w.limb_seq, i)) for i in range(cnt)]
+        it.pc.append(z3.And([z3.And(L >= 0, L < (1 << 64)) for L in Ls] + [ax == sum(L * (1 << (64 * i)) for i, L in enumerate(Ls)) if Ls else ax == 0]))
+        w.mpz_limbs = getattr(w, 'mpz_limbs', {}); w.mpz_limbs[x.get_id()] = Ls
+        return cnt
+    H['@__gmpz_size'] = lambda it, a: nlimbs(it, mz(a[0]))
+    def getlimbn(it, a):
+        x = mz(a[0]); i = it.concretize(a[1], 64, 'limb index')
+        if conc(x): return (abs(x) >> (64 * i)) & mask(64)
+        Ls = getattr(w, 'mpz_limbs', {}).get(x.get_id())
+        if Ls is not None and i < len(Ls): return i2b(Ls[i], 64)
+        return i2b(zmod(zabs(x) / (1 << (64 * i)), 1 << 64), 64)
+    H['@__gmpz_getlimbn'] = getlimbn
+    def fdiv_ui(it, a):
+        n = mz(a[0]); d = b2i(a[1])
+        if conc(d) and d == 0: raise Violation('ub', 'mpz_fdiv_ui by zero')
+        return i2b(zmod(n, d), 64)
+    H['@__gmpz_fdiv_ui'] = fdiv_ui
     def cmp(it, a):
         x = mz(a[0]); y = mz(a[1])
         if conc(x) and conc(y): return ((x > y) - (x < y)) & mask(32)
